@@ -356,21 +356,23 @@ theorem whileLoop_forLoop (A : Arrays) (cond : Cond) (body post : List Stmt) (iv
     (hcond : ∀ ρ, Inv ρ → evalC ρ A cond = ltb (ρ iv) (N : Int))
     (hstep : ∀ (ρ : Env) (k : Nat), Inv ρ → ρ iv = (k : Int) → k < N →
       runEnv A (runEnv A ρ body) post = upd (runEnv A ρ body) iv ((k + 1 : Nat) : Int)
-      ∧ Inv (upd (runEnv A ρ body) iv ((k + 1 : Nat) : Int))) :
+      ∧ Inv (upd (runEnv A ρ body) iv ((k + 1 : Nat) : Int))) (e : Nat) :
     ∀ (n k : Nat) (ρ : Env), Inv ρ → ρ iv = (k : Int) → k + n = N →
-      whileLoop A cond body post (n + 1) ρ = upd (forLoop A body iv n k ρ) iv (N : Int) := by
+      whileLoop A cond body post (n + 1 + e) ρ = upd (forLoop A body iv n k ρ) iv (N : Int) := by
   intro n
   induction n with
   | zero =>
     intro k ρ hI hk hN
     have : k = N := by omega
     subst this
-    rw [whileLoop, hcond ρ hI, hk]
+    have ef : 0 + 1 + e = e + 1 := by omega
+    rw [ef, whileLoop, hcond ρ hI, hk]
     have : ltb (k : Int) (k : Int) = false := (ltb_false _ _).mpr (by omega)
     rw [this, cond_false, forLoop, ← hk, upd_self]
   | succ n ih =>
     intro k ρ hI hk hN
-    rw [whileLoop, hcond ρ hI, hk]
+    have ef : n + 1 + 1 + e = (n + 1 + e) + 1 := by omega
+    rw [ef, whileLoop, hcond ρ hI, hk]
     have : ltb (k : Int) (N : Int) = true := (ltb_iff _ _).mpr (by omega)
     rw [this, cond_true]
     have ⟨e1, hI'⟩ := hstep ρ k hI hk (by omega)
@@ -387,8 +389,8 @@ theorem while_glue (A : Arrays) (pre init : List Stmt) (cond : Cond) (post body 
     (hpost : ∀ σ, runEnv A σ post = upd σ 1 (norm .i64 (σ 1 + 1)))
     (hframe : ∀ σ, runEnv A σ body 1 = σ 1 ∧ runEnv A σ body 3 = σ 3)
     (hafter : ∀ σ v, runRet A (upd σ 1 v) after = runRet A σ after)
-    (hN : N < 4611686018427387904) :
-    callWhile A pre init cond post body after (N + 1) ρ
+    (hN : N < 4611686018427387904) (e : Nat) :
+    callWhile A pre init cond post body after (N + 1 + e) ρ
       = retVal (runRet A (forLoop A body 1 N 0 (runEnv A (runEnv A ρ pre) init)) after) := by
   unfold callWhile
   rw [hpre]
@@ -405,7 +407,7 @@ theorem while_glue (A : Arrays) (pre init : List Stmt) (cond : Cond) (post body 
       · show upd (runEnv A σ body) 1 _ 3 = _
         simp only [upd, Nat.reduceEqDiff, if_false]
         rw [f3]; exact hI)
-    N 0 (runEnv A (runEnv A ρ pre) init) h3 (by rw [h1]; rfl) (by omega)
+    e N 0 (runEnv A (runEnv A ρ pre) init) h3 (by rw [h1]; rfl) (by omega)
   rw [this, hafter]
 
 
@@ -419,8 +421,8 @@ theorem while_glue_gen (A : Arrays) (pre init : List Stmt) (cond : Cond) (post b
     (hframe : ∀ σ, runEnv A σ body iv = σ iv)
     (hinv : ∀ σ v, Inv σ → Inv (upd (runEnv A σ body) iv v))
     (hafter : ∀ σ v, runRet A (upd σ iv v) after = runRet A σ after)
-    (hN : N < 4611686018427387904) :
-    callWhile A pre init cond post body after (N + 1) ρ
+    (hN : N < 4611686018427387904) (e : Nat) :
+    callWhile A pre init cond post body after (N + 1 + e) ρ
       = retVal (runRet A (forLoop A body iv N 0 (runEnv A (runEnv A ρ pre) init)) after) := by
   unfold callWhile
   rw [hpre]
@@ -433,7 +435,7 @@ theorem while_glue_gen (A : Arrays) (pre init : List Stmt) (cond : Cond) (post b
           simp only [norm, Ty.half, Ty.modulus]; omega
         rw [this]
       · exact hinv σ _ hI)
-    N 0 (runEnv A (runEnv A ρ pre) init) hI0 (by rw [h1]; rfl) (by omega)
+    e N 0 (runEnv A (runEnv A ρ pre) init) hI0 (by rw [h1]; rfl) (by omega)
   rw [this, hafter]
 
 /-- a block of plain assignments -/
